@@ -233,6 +233,13 @@ def observers(ctx, repo):
                     key, (op2, arg2) = arg
                     if op2 == "unwatch":
                         act = lambda o=o, arg2=arg2: interp.call(repo.method("Observable", "unwatch"), o, [Listener(arg2, log)])  # noqa: E731
+                    elif op2 == "raise-once":
+                        fired = []
+
+                        def act(fired=fired):
+                            if not fired:
+                                fired.append(1)
+                                raise PyRaise("RuntimeError: observer bug")
                     else:
                         act = lambda o=o: interp.call(repo.method("Observable", "unwatch_all"), o, [])  # noqa: E731
                     interp.call(repo.method("Observable", "watch"), o, [Listener(key, log, act)])
@@ -269,6 +276,14 @@ def observers(ctx, repo):
         ("self-removal-does-not-skip-the-next", [("watch", ("a", ("unwatch", "a"))), ("watch", "b"), ("change", ev), ("change", ev)], [("a", ev), ("b", ev), ("b", ev)],
          "an observer that removes itself while being notified makes the next observer miss that update (or is called again afterwards)"),
     ]
+    # a listener that fails once: whatever happens to THAT delivery (not claimed), the next changes reach everybody again
+    ev2, ev3 = ("S", 2, 3), ("S", 3, 4)
+    got = run([("watch", "a"), ("watch", ("b", ("raise-once", None))), ("watch", "c"), ("change", ev), ("change", ev2), ("change", ev3)])
+    later = [g for g in got if g[0] != "raise" and g[1] in (ev2, ev3)]
+    want_later = [("a", ev2), ("b", ev2), ("c", ev2), ("a", ev3), ("b", ev3), ("c", ev3)]
+    ctx.ob("R5", "Observable::a-failing-observer-does-not-silence-later-changes", later == want_later,
+           f"after an observer raised once while being notified, the next two changes are delivered as {later}, expected {want_later}: a device whose listener failed once stops reporting changes "
+           f"(the facade no longer hears that a pump went off and keeps the wrong timing table)", w.loc)
     for key, script, want, what in cases:
         got = run(script)
         ctx.ob("R5", f"Observable::{key}", got == want, f"{what}: calls {got}, expected {want}", w.loc,
